@@ -16,6 +16,7 @@ def layouts(tier):
         R.layout("base-robot+inherit", [c("c0", on="base"), c("c1"), c("c2", inherit="c0")], auto=False, teleop_in_auto=False, p_us=15625, robot_base=True),
         R.layout("none+auto", [], auto=True, teleop_in_auto=False, p_us=5000),
         R.layout("nohooks+reversed", [c("c1", hooks=False), c("c0")], auto=True, teleop_in_auto=False, p_us=20000),
+        R.layout("same-class-pair", [c("c0"), c("c1"), c("c2", same_class_as="c0")], auto=True, teleop_in_auto=False, p_us=20000),
     ]
     if tier == "thorough":
         import itertools
